@@ -108,3 +108,25 @@ Proof.
   - simpl. apply perm_trans with [1; 0; 2; 3]; [apply perm_skip, perm_swap|apply perm_swap].
   - vm_compute. lia.
 Qed.
+
+(* ---- link to the record model (Union2.split_go): the halves cut out by the repaired labels ---- *)
+Require Import NV.Base.
+Lemma fmask_length_count {A} : forall (m : list bool) (l : list A), length m = length l ->
+  length (fmask m l) = count true m /\ length (fmask (map negb m) l) = count false m.
+Proof.
+  unfold count. induction m as [|b m IH]; intros [|x l] H; simpl in *; try discriminate; auto.
+  destruct (IH l) as [A1 A2]; [lia|]. destruct b; simpl; lia.
+Qed.
+(* with the repaired labels, an ellipsoid that may be split (at least 2 n_min points, which is what a clear may-split flag
+   records) is cut into two halves of at least n_min points each: the size guard of split_go never fires *)
+Theorem topup_halves {A} n_min rank_other (l0 : list bool) (pts : list A) :
+  length l0 = length pts -> 2 * n_min <= length pts -> Permutation rank_other (others (small_label l0) l0) ->
+  let labels := topup n_min rank_other l0 in
+  length labels = length pts /\ n_min <= length (fmask labels pts) /\ n_min <= length (fmask (map negb labels) pts).
+Proof.
+  intros HL Hn HP. cbv zeta. rewrite <- HL in Hn.
+  destruct (topup_ok n_min rank_other l0 Hn HP) as (L & C0 & C1 & _).
+  assert (HL' : length (topup n_min rank_other l0) = length pts) by lia.
+  destruct (fmask_length_count (topup n_min rank_other l0) pts HL') as [F1 F0].
+  split; [exact HL'|]. rewrite F1, F0. split; assumption.
+Qed.
